@@ -45,6 +45,21 @@ def model_check(tmp, name, overrides, timeout=1500):
     return res
 
 
+def liveness_check(tmp, name, overrides, props="L_StopReturns L_FaultReturns", timeout=1500):
+    """Temporal properties under fairness (FairSpec), no state constraint, small constants only."""
+    c = dict(ADV_DEFAULTS)
+    c.update(overrides)
+    cfg = os.path.join(tmp, "LV_%s.cfg" % name)
+    with open(cfg, "w") as f:
+        f.write("SPECIFICATION FairSpec\nCONSTANTS\n")
+        for k, v in c.items():
+            f.write("  %s = %s\n" % (k, v))
+        f.write("PROPERTIES %s\nCHECK_DEADLOCK FALSE\n" % props)
+    r = vf.tlc("Advertiser", cfg, workdir=vf.mktmp("vf-lv-"), timeout=timeout, heap="10g")
+    return {"config": name + " (liveness: %s under WF of the internal steps, time and gate release)" % props, "constants": c,
+            "states": r["states"], "transitions": r["generated"], "ok": r["ok"], "violation": r["violation"], "wall_s": round(r["wall_s"], 1)}
+
+
 def env_histories(tmp, name, overrides, timeout=600):
     c = dict(ENV_DEFAULTS)
     c.update(overrides)
